@@ -35,13 +35,18 @@
 package main
 
 import (
+	"bytes"
 	"encoding/json"
+	"flag"
 	"fmt"
 	"math"
 	"math/big"
+	"os"
+	"runtime/pprof"
 	"strconv"
 	"sync"
 
+	logger "github.com/ElrondNetwork/elrond-go-logger"
 	"github.com/ElrondNetwork/elrond-go/core"
 	"github.com/ElrondNetwork/elrond-go/process/throttle/antiflood/floodPreventers"
 	"github.com/ElrondNetwork/elrond-go/storage/lrucache"
@@ -131,9 +136,34 @@ type state struct {
 	y    *system
 	q    preventer
 	ref  [2]peerRef
-	nt   string
-	out  string
 	ctor string
+	// last step, for the coverage labels (strings are built only when BFS asks for them)
+	lastKind int // 0 none, 1 reset, 2 quota moved, 3 quota same, 4 accepted, 5 rejected
+	lastN    uint64
+	lastMov  bool
+}
+
+func (s *state) nontrivial() string {
+	if s.lastKind != 5 {
+		return ""
+	}
+	return fmt.Sprintf("%d|rej|%d|%v", s.y.idx, s.lastN, s.lastMov)
+}
+
+func (s *state) outcome() string {
+	switch s.lastKind {
+	case 1:
+		return "reset"
+	case 2:
+		return "quota-moved"
+	case 3:
+		return "quota-same"
+	case 4:
+		return "accepted-" + strconv.FormatUint(s.lastN, 10)
+	case 5:
+		return "rejected-after-" + strconv.FormatUint(s.lastN, 10)
+	}
+	return ""
 }
 
 func newSystem(idx int, g config, ops []op, names []string) *system {
@@ -208,7 +238,7 @@ func addSat(a, b uint64) uint64 {
 
 func (s *state) do(o int) (string, string) {
 	y := s.y
-	s.nt, s.out = "", ""
+	s.lastKind = 0
 	if s.q == nil {
 		return sigCtor, fmt.Sprintf("config %v: %s", y.cfg, s.ctor)
 	}
@@ -217,7 +247,7 @@ func (s *state) do(o int) (string, string) {
 	case 1:
 		s.q.Reset()
 		s.ref = [2]peerRef{}
-		s.out = "reset"
+		s.lastKind = 1
 	case 2:
 		before := s.q.VerifC42State().ComputedMaxNumMessagesPerPeer
 		s.q.ApplyConsensusSize(p.n)
@@ -228,9 +258,9 @@ func (s *state) do(o int) (string, string) {
 					s.ref[i].quotaMov = true
 				}
 			}
-			s.out = "quota-moved"
+			s.lastKind = 2
 		} else {
-			s.out = "quota-same"
+			s.lastKind = 3
 		}
 	case 0:
 		r := &s.ref[p.peer]
@@ -246,13 +276,12 @@ func (s *state) do(o int) (string, string) {
 			}
 		}
 		if !accepted {
-			s.out = fmt.Sprintf("rejected-after-%d", r.accN)
-			s.nt = fmt.Sprintf("%d|rej|%d|%v", y.idx, r.accN, r.quotaMov)
+			s.lastKind, s.lastN, s.lastMov = 5, r.accN, r.quotaMov
 			return "", ""
 		}
 		r.accN++
 		r.accBytes = addSat(r.accBytes, p.size)
-		s.out = fmt.Sprintf("accepted-%d", r.accN)
+		s.lastKind, s.lastN = 4, r.accN
 		what := func(bound string, lim uint64) string {
 			return fmt.Sprintf("config %v: after %s peer %s has %d accepted messages / %d accepted bytes in this interval (first message %d bytes); message quota in force %d, byte quota %d; %s = %d",
 				y.cfg, y.names[o], pidNames[p.peer], r.accN, r.accBytes, r.first, quotaN, y.cfg.MaxSize, bound, lim)
@@ -279,31 +308,61 @@ func (s *state) key() string {
 	if s.q == nil {
 		return "ctor-error"
 	}
-	b := make([]byte, 0, 96)
-	b = strconv.AppendUint(b, uint64(s.q.VerifC42State().ComputedMaxNumMessagesPerPeer), 10)
+	var blk [2][]byte
 	for i := range pids {
 		q := s.q.VerifC42Quota(pids[i])
 		r := &s.ref[i]
-		b = append(b, '|')
+		b := make([]byte, 0, 48)
 		if q.Present {
 			b = append(b, 'P')
 		} else {
 			b = append(b, '-')
 		}
-		for _, v := range []uint64{uint64(q.NumReceivedMessages), uint64(q.NumProcessedMessages), q.SizeReceivedMessages, q.SizeProcessedMessages,
+		for _, v := range [...]uint64{uint64(q.NumReceivedMessages), uint64(q.NumProcessedMessages), q.SizeReceivedMessages, q.SizeProcessedMessages,
 			r.recv, r.accN, r.accBytes, r.first} {
 			b = strconv.AppendUint(b, v, 10)
 			b = append(b, ',')
 		}
 		// quotaMov only labels coverage (non-trivial keys); it cannot influence any
 		// future verdict, so it is deliberately not part of the state.
+		blk[i] = b
 	}
+	// Peer symmetry: the preventer keeps one independent record per peer id in a cache that
+	// never evicts, and the event alphabet is closed under swapping p and q, so a state and
+	// its mirror image have mirror-image futures; the two blocks are sorted (assumption
+	// recorded in the evidence).
+	if !*noSym && bytes.Compare(blk[0], blk[1]) > 0 {
+		blk[0], blk[1] = blk[1], blk[0]
+	}
+	b := make([]byte, 0, 112)
+	b = strconv.AppendUint(b, uint64(s.q.VerifC42State().ComputedMaxNumMessagesPerPeer), 10)
+	b = append(b, '|')
+	b = append(b, blk[0]...)
+	b = append(b, '|')
+	b = append(b, blk[1]...)
 	return string(b)
 }
 
+// development aids (never set by the registered command): search only configurations
+// [cfgFrom, cfgFrom+cfgN) and/or override the depth; such a run is recorded as capped.
+var cfgFrom = flag.Int("cfg-from", 0, "dev: first configuration index")
+var cfgN = flag.Int("cfg-n", 0, "dev: number of configurations (0 = all)")
+var noSym = flag.Bool("no-symmetry", false, "dev: do not merge mirror-image states (p<->q)")
+var devDepth = flag.Int("depth", 0, "dev: override search depth")
+
 func main() {
 	mc.Main("C42", "model_checking", func(c *mc.Ctx) {
-		depth := c.Pick(6, 8)
+		_ = logger.SetLogLevel("*:NONE")
+		if pf := os.Getenv("C42_PROF"); pf != "" {
+			f, _ := os.Create(pf)
+			pprof.StartCPUProfile(f)
+			defer pprof.StopCPUProfile()
+		}
+		depth := c.Pick(5, 7)
+		if *devDepth > 0 {
+			depth = *devDepth
+			c.Cap("dev: depth override")
+		}
 		ops, names := buildMenu()
 		var cfgs []config
 		// simplest first, so that the first witness of a signature is a small one
@@ -318,12 +377,34 @@ func main() {
 				}
 			}
 		}
+		// Edge configurations: the quantifier is "all quota configurations accepted by the
+		// constructor", and the constructor's range checks are written so that non-finite
+		// floats pass them; extreme integers are accepted as well. Each of these is searched
+		// like a design configuration if (and only if) NewQuotaFloodPreventer accepts it.
+		nProduct := len(cfgs)
+		nan := float32(math.NaN())
+		cfgs = append(cfgs,
+			config{Base: 1, MaxSize: 10, Reserved: nan, Threshold: 0, Factor: 0},
+			config{Base: 2, MaxSize: 1, Reserved: nan, Threshold: 3, Factor: 2},
+			config{Base: 2, MaxSize: 10, Reserved: 0, Threshold: 0, Factor: nan},
+			config{Base: 2, MaxSize: 10, Reserved: 0, Threshold: 0, Factor: float32(math.Inf(1))},
+			config{Base: 2, MaxSize: 10, Reserved: 0, Threshold: 0, Factor: 3e9},
+			config{Base: math.MaxUint32, MaxSize: math.MaxUint64, Reserved: 50, Threshold: 0, Factor: 2},
+		)
 		var systems []*system
+		edgeRejected := 0
 		for i, g := range cfgs {
-			systems = append(systems, newSystem(i, g, ops, names))
+			y := newSystem(i, g, ops, names)
+			if i >= nProduct {
+				if st := y.init(); st.q == nil { // not accepted by the constructor: outside the quantifier
+					edgeRejected++
+					continue
+				}
+			}
+			systems = append(systems, y)
 		}
-		c.Rule = fmt.Sprintf("one explicit-state BFS with state matching per configuration in base max {1,2,5} x max size {1,10,100} x reserved {0,33.3,50,90} x threshold {0,3} x factor {0,0.5,2} (%d configurations, all accepted by NewQuotaFloodPreventer) on the real quotaFloodPreventer over a real LRU (capacity 1000); events IncreaseLoad(pid in {p,q}, size in %v), Reset, ApplyConsensusSize(n in %v): all event sequences of length <= %d; state = (computed max, both peers' quota records, the oracle's per-peer interval bookkeeping); non-trivial = a message refused by the real preventer after >=1 accepted message of that peer in the interval (distinguished by configuration, number accepted, and whether the quota moved in the interval)",
-			len(cfgs), sizes, consensus, depth)
+		c.Rule = fmt.Sprintf("one explicit-state BFS with state matching per configuration in base max {1,2,5} x max size {1,10,100} x reserved {0,33.3,50,90} x threshold {0,3} x factor {0,0.5,2} (%d configurations, all accepted by NewQuotaFloodPreventer) plus those of %d edge configurations (PercentReserved NaN x2; IncreaseFactor NaN, +Inf, 3e9; base 2^32-1 with max size 2^64-1) that the constructor accepts, on the real quotaFloodPreventer over a real LRU (capacity 1000); events IncreaseLoad(pid in {p,q}, size in %v), Reset, ApplyConsensusSize(n in %v): all event sequences of length <= %d; state = (computed max, both peers' quota records, the oracle's per-peer interval bookkeeping); non-trivial = a message refused by the real preventer after >=1 accepted message of that peer in the interval (distinguished by configuration, number accepted, and whether the quota moved in the interval)",
+			nProduct, len(cfgs)-nProduct, sizes, consensus, depth)
 		c.Assumptions = []string{
 			"the LRU never evicts (capacity 1000, 2 peers); an evicting cache restarts a peer's record and is outside the statement",
 			"operations are applied one at a time (the preventer serialises them under its mutex); no concurrency is explored",
@@ -339,6 +420,10 @@ func main() {
 		}
 		fix := 0
 		var maxStates int64
+		if *cfgN > 0 {
+			systems = systems[*cfgFrom : *cfgFrom+*cfgN]
+			c.Cap("dev: configuration subset")
+		}
 		for _, y := range systems {
 			y := y
 			st := mc.BFS(c, mc.Sys[*state]{
@@ -347,8 +432,8 @@ func main() {
 				Do:         func(s *state, o int) (string, string) { return s.do(o) },
 				Check:      func(s *state) (string, string) { return "", "" },
 				Key:        func(s *state) string { return s.key() },
-				Nontrivial: func(s *state) string { return s.nt },
-				Outcome:    func(s *state) string { return s.out },
+				Nontrivial: func(s *state) string { return s.nontrivial() },
+				Outcome:    func(s *state) string { return s.outcome() },
 			}, depth)
 			if st.Fixpoint {
 				fix++
@@ -363,6 +448,8 @@ func main() {
 		}
 		c.Bound = fmt.Sprintf("all event sequences of length <= %d in each of %d configurations", depth, len(systems))
 		c.Count("configurations", int64(len(systems)))
+		c.Count("edge_configurations_accepted_by_constructor", int64(len(cfgs)-nProduct-edgeRejected))
+		c.Count("edge_configurations_rejected_by_constructor", int64(edgeRejected))
 		c.Count("configurations_searched_to_fixpoint", int64(fix))
 		c.Count("largest_state_count_of_one_configuration", maxStates)
 	})
